@@ -227,6 +227,15 @@ void op_reload(const Step& s) {
 	api_end(); count(c_oracle_evals); count(c_client_restarts);
 	if (!ok) { violation("C13.reload-of-completed-dump", site, "the library rejected a text it dumped itself: " + e); return; }
 	Desc g; std::string err; if (!mdl::parse_timbuk_ref(d1, g, &err)) { violation("C13.dump-well-formed", site, err); return; }
+	if (enc == 2 && b.has_starts) {
+		// the reloaded automaton must report the start states the dumped one reported, under the same names
+		VATA::Parsing::TimbukParser parser; VATA::AutBase::StateDict dict; VATA::ExplicitFiniteAut a; std::set<std::string> now;
+		api_begin(); api_site(site + ":GetStartStates");
+		a.LoadFromString(parser, b.bytes, dict);
+		for (const auto& q : a.GetStartStates()) now.insert(dict.TranslateBwd(q));
+		api_end(); count(c_oracle_evals);
+		if (now != b.api_starts) { std::string x, y; for (auto& q : b.api_starts) x += " " + q; for (auto& q : now) y += " " + q; violation("C13.reload-of-completed-dump", site, "the dumped automaton had the start states {" + x + " }, the reloaded one has {" + y + " }\n  text: " + b.bytes); }
+	}
 	if (enc == 2) { mdl::FA got, want = mdl::fa_from_lit(b.model_lit); if (!mdl::desc_to_fa(g, "", got) || !(got.edges == want.edges && got.finals == want.finals && got.starts == want.starts)) violation("C13.reload-of-completed-dump", site, "reloading a completed dump does not give the automaton that was dumped\n  dumped: " + b.model_lit + "\n  got   : " + mdl::to_lit(got)); }
 	else { mdl::TA got, want = mdl::from_lit(b.model_lit); if (!mdl::desc_to_ta(g, "", got) || got != want) violation("C13.reload-of-completed-dump", site, "reloading a completed dump does not give the automaton that was dumped\n  dumped: " + b.model_lit + "\n  got   : " + mdl::to_lit(got)); }
 }
@@ -319,15 +328,39 @@ Plan plan_C13(Rng& r, const std::string& tier) {
 	bool fa_only = r.chance(1, 3), fancy = r.chance(1, 2), parens = false;
 	std::string text = gen_desc_text(r, fa_only, fancy, &parens);
 	p.steps.push_back(gen::mk(0, "tx_roundtrip", {31}, text));
-	if (r.chance(1, 3)) {
-		// durability of a completed dump across a client abort
-		p.clients = 2;
-		p.steps.push_back(gen::mk(1, "et_load", {0, 0}, mdl::to_lit(gen::gen_ta(r, pool, o))));
-		p.steps.push_back(gen::mk(1, "et_dump", {0}));
-		p.steps.push_back(gen::mk(1, "fa_load", {}, mdl::to_lit(gen::gen_fa(r, {"a", "b"}, 3))));
-		p.steps.push_back(gen::mk(1, "fa_dump", {0}));
-		p.steps.push_back(gen::mk(1, "abort", {1, long(r.below(1000))}));
-		p.steps.push_back(gen::mk(1, "tx_reload", {0})); p.steps.push_back(gen::mk(1, "tx_reload", {1}));
+	if (r.chance(1, 2)) {
+		// durability of a completed dump across a client abort; "every automaton in any of the four encodings" includes those
+		// that operations returned, so the second client runs a short history before it dumps
+		p.clients = 2; size_t before = p.steps.size(); int dumps = 0;
+		switch (r.below(4)) {
+			case 0:
+				p.steps.push_back(gen::mk(1, "et_load", {0, 0}, mdl::to_lit(gen::gen_ta(r, pool, o))));
+				p.steps.push_back(gen::mk(1, "et_dump", {0}));
+				p.steps.push_back(gen::mk(1, "fa_load", {}, mdl::to_lit(gen::gen_fa(r, {"a", "b"}, 3))));
+				p.steps.push_back(gen::mk(1, "fa_dump", {0}));
+				break;
+			case 1: {
+				std::vector<Step> h = fa_history_program(r, 1, 2, r.range(3, 12)); p.steps.insert(p.steps.end(), h.begin(), h.end());
+				if (r.chance(1, 2)) {
+					// an automaton whose start states carry no start symbol (a mirror image), fed into another operation; -1 names the newest handle
+					p.steps.push_back(gen::mk(1, "fa_reverse", {long(r.below(16))}));
+					switch (r.below(5)) {
+						case 0: p.steps.push_back(gen::mk(1, "fa_union", {-1, long(r.below(16)), long(r.below(2))})); break;
+						case 1: p.steps.push_back(gen::mk(1, "fa_isect", {-1, -1, 0})); break;
+						case 2: p.steps.push_back(gen::mk(1, "fa_union_disj", {long(r.below(16)), -1})); break;
+						case 3: p.steps.push_back(gen::mk(1, "fa_useless", {-1})); break;
+						default: p.steps.push_back(gen::mk(1, "fa_witness", {-1})); break;
+					}
+					p.steps.push_back(gen::mk(1, "fa_dump", {-1})); p.steps.push_back(gen::mk(1, "fa_dump", {-2}));
+				}
+				int k = r.range(2, 5); for (int i = 0; i < k; ++i) p.steps.push_back(gen::mk(1, "fa_dump", {long(r.below(16))}));
+				break; }
+			case 2: { std::vector<Step> h = et_history_program(r, 1, pool, r.range(3, 10)); p.steps.insert(p.steps.end(), h.begin(), h.end()); break; }
+			default: { std::vector<Step> h = bdd_history_program(r, 1, pool, r.range(3, 10)); p.steps.insert(p.steps.end(), h.begin(), h.end()); break; }
+		}
+		for (size_t i = before; i < p.steps.size(); ++i) if (p.steps[i].op == "et_dump" || p.steps[i].op == "fa_dump" || p.steps[i].op == "bdd_dump") ++dumps;
+		if (r.chance(2, 3)) p.steps.push_back(gen::mk(1, "abort", {1, long(r.below(1000))}));
+		for (int i = 0; i < dumps; ++i) p.steps.push_back(gen::mk(1, "tx_reload", {i}));
 	}
 	bool full = tier == "thorough" || r.chance(1, 2);
 	for (int kind : {0, 1, 2, 3, 5}) {
